@@ -22,6 +22,8 @@ class GhostMixin:
     def unopt_strict(self, v, node=None):
         """Value used where None is a TypeError."""
         if isinstance(v, Opt):
+            if self.spec_mode:
+                return v.val
             if self.branch(v.isnone, 'isnone@%s' % getattr(node, 'lineno', '?')):
                 self.raise_builtin('TypeError', node=node)
             return v.val
